@@ -59,7 +59,7 @@ class ServiceOrder(O.Monitor):
                 self.activity["starts_after_unblock"] += 1
             # priority of each candidate *at the moment of the choice*: the cc_wait change happens before the attach
             pr = {}
-            for cid, p, obj in cands:
+            for cid, p, obj, _iw in cands:
                 pr[id(obj)] = (p, obj)
             if id(ind) not in pr:
                 rep("chosen-customer-was-waiting", {"node": nid, "customer": ind.id_number})
